@@ -43,6 +43,17 @@ def drive_and_validate(acc, n, prop, opzoo=True):
     if len(bad) != len(rep["violations"]):
         raise core.ToolError(f"trace spec and harness disagree on the number of {prop} violations: "
                              f"TLC {len(bad)} vs harness {len(rep['violations'])}")
+    if prop == "C04" and res.get("badrule"):
+        lines = open(trace).read().splitlines()
+        for l in res["badrule"][:20]:
+            r = json.loads(lines[l - 1])
+            rep["violations"].append({"property": "C04", "kind": "path-composition-rule", "case": {"prog": r["prog"], "env": r["env"]},
+                                      "optimized": r["opt"][1], "what": "the optimiser answered a first/rest chain over a path atom with an atom denoting other steps"})
+    if prop == "C06":
+        # both lists are in record order: the i-th harness violation is TLC's i-th bad record
+        expl = set(res.get("explained", []))
+        for v, l in zip(rep["violations"], sorted(bad)):
+            v["model_explains"] = l in expl
     acc.drift += len(res["drift"])
     for d in res["drift"][:3]:
         acc.drift_samples.append({"trace_record": d, "what": "ClvmStepper model outcome differs from the observed stepper"})
